@@ -88,6 +88,11 @@ func (h *handshake) Start(node gen.NodeHandshake, conn net.Conn, options gen.Han
 	if ok == false {
 		return result, fmt.Errorf("malformed handshake Accept message")
 	}
+	// the pool size comes from the wire and sizes the receive queues of the connection;
+	// a link is chosen by a one-byte order value, so more than 255 links are never used
+	if accept.PoolSize < 1 || accept.PoolSize > 255 {
+		return result, fmt.Errorf("malformed handshake Accept message (pool size %d)", accept.PoolSize)
+	}
 
 	// waiting for Intro message
 	v, tail, err = h.readMessage(conn, time.Second, tail)
